@@ -396,6 +396,12 @@ impl Gen {
             let other = self.aterm(0);
             terms[i] = asp::Term::BinaryOperation { op: asp::BinaryOperator::Interval, lhs: Box::new(if self.rng.chance(1, 2) { v.clone() } else { other.clone() }), rhs: Box::new(if self.rng.chance(1, 2) { v } else { other }) };
         }
+        // the same term in two argument positions (also the same interval twice)
+        if arity >= 2 && self.rng.chance(1, 5) {
+            let i = self.rng.below(arity);
+            let j = self.rng.below(arity);
+            terms[j] = terms[i].clone();
+        }
         asp::Atom { predicate_symbol: name, terms }
     }
 
@@ -430,6 +436,107 @@ impl Gen {
             _ => 3,
         };
         asp::Rule { head, body: asp::Body { formulas: (0..n).map(|_| self.abody_atom(depth)).collect() } }
+    }
+
+    // ------------------------------------------------------------ programs near the boundary of regularity
+
+    fn rterm(&mut self, depth: usize) -> asp::Term {
+        use asp::Term::*;
+        let k = if depth == 0 { self.rng.below(5) } else { self.rng.below(9) };
+        match k {
+            0 | 1 => Variable(asp::Variable(self.var_name())),
+            2 | 3 => PrecomputedTerm(asp::PrecomputedTerm::Numeral(self.numeral())),
+            4 => {
+                // the irregular leaves, now and then
+                if self.rng.chance(1, 4) {
+                    PrecomputedTerm(match self.rng.below(3) { 0 => asp::PrecomputedTerm::Infimum, 1 => asp::PrecomputedTerm::Supremum, _ => asp::PrecomputedTerm::Symbol(self.rng.pick(SYM_NAMES).to_string()) })
+                } else {
+                    Variable(asp::Variable(self.var_name()))
+                }
+            }
+            5 => UnaryOperation { op: asp::UnaryOperator::Negative, arg: Box::new(self.rterm(depth - 1)) },
+            _ => {
+                use asp::BinaryOperator::*;
+                let op = *self.rng.pick(&[Add, Add, Subtract, Multiply, Multiply, Divide, Modulo, Interval]);
+                BinaryOperation { op, lhs: Box::new(self.rterm(depth - 1)), rhs: Box::new(self.rterm(depth - 1)) }
+            }
+        }
+    }
+
+    fn rinterval(&mut self) -> asp::Term {
+        asp::Term::BinaryOperation { op: asp::BinaryOperator::Interval, lhs: Box::new(self.rterm(1)), rhs: Box::new(self.rterm(1)) }
+    }
+
+    fn ratom(&mut self, interval_chance: usize) -> asp::Atom {
+        let n = self.npreds.min(PRED_NAMES.len());
+        let name = PRED_NAMES[self.rng.below(n)].to_string();
+        let arity = self.rng.below(4);
+        let mut terms: Vec<asp::Term> = (0..arity).map(|_| if self.rng.chance(1, interval_chance) { self.rinterval() } else { self.rterm(1) }).collect();
+        if arity >= 2 && self.rng.chance(1, 4) {
+            let i = self.rng.below(arity);
+            let j = self.rng.below(arity);
+            terms[j] = terms[i].clone();
+        }
+        asp::Atom { predicate_symbol: name, terms }
+    }
+
+    /// Rules whose parts are regular most of the time, with the irregular variants (interval under an operator or on the
+    /// left of a comparison, interval with a relation other than `=`, symbols / #inf / #sup / division inside arithmetic,
+    /// interval in a body atom) mixed in with small probability each.
+    pub fn regularish_program(&mut self, max_rules: usize) -> asp::Program {
+        let n = 1 + self.rng.below(max_rules);
+        let mut rules = vec![];
+        for _ in 0..n {
+            let head = match self.rng.below(8) { 0 => asp::Head::Falsity, 1 | 2 => asp::Head::Choice(self.ratom(4)), _ => asp::Head::Basic(self.ratom(4)) };
+            let mut body = vec![];
+            for _ in 0..self.rng.below(4) {
+                if self.rng.chance(1, 2) {
+                    use asp::Relation::*;
+                    let with_interval = self.rng.chance(1, 2);
+                    let relation = if with_interval && self.rng.chance(3, 4) { Equal } else { *self.rng.pick(&[Equal, NotEqual, Less, LessEqual, Greater, GreaterEqual]) };
+                    let (lhs, rhs) = if with_interval {
+                        if self.rng.chance(1, 8) { (self.rinterval(), self.rterm(1)) } else { (self.rterm(1), self.rinterval()) }
+                    } else { (self.rterm(1), self.rterm(1)) };
+                    body.push(asp::AtomicFormula::Comparison(asp::Comparison { relation, lhs, rhs }));
+                } else {
+                    let sign = match self.rng.below(5) { 0 | 1 | 2 => asp::Sign::NoSign, 3 => asp::Sign::Negation, _ => asp::Sign::DoubleNegation };
+                    body.push(asp::AtomicFormula::Literal(asp::Literal { sign, atom: self.ratom(12) }));
+                }
+            }
+            rules.push(asp::Rule { head, body: asp::Body { formulas: body } });
+        }
+        asp::Program { rules }
+    }
+
+    /// Dense propositional / unary dependency programs: few predicates, many rules, so that the same dependency comes from
+    /// several rules, cycles of all lengths occur next to acyclic parts, through negation and choice, and `p/0` meets `p/1`.
+    pub fn dependency_program(&mut self) -> asp::Program {
+        let names = ["a", "b", "c", "d", "e"];
+        let k = 2 + self.rng.below(4);
+        let n = 2 + self.rng.below(7);
+        let mut rules = vec![];
+        let mut atom = |g: &mut Gen| -> asp::Atom {
+            let name = names[g.rng.below(k)].to_string();
+            let terms = if g.rng.chance(1, 5) { vec![asp::Term::Variable(asp::Variable("X".into()))] } else { vec![] };
+            asp::Atom { predicate_symbol: name, terms }
+        };
+        for _ in 0..n {
+            let head = match self.rng.below(10) { 0 => asp::Head::Falsity, 1 | 2 => asp::Head::Choice(atom(self)), _ => asp::Head::Basic(atom(self)) };
+            let mut body = vec![];
+            for _ in 0..(1 + self.rng.below(3)) {
+                let sign = match self.rng.below(6) { 0 => asp::Sign::Negation, 1 => asp::Sign::DoubleNegation, _ => asp::Sign::NoSign };
+                body.push(asp::AtomicFormula::Literal(asp::Literal { sign, atom: atom(self) }));
+            }
+            // the same body atom again in another rule with the same head: duplicate edges
+            if self.rng.chance(1, 3) && !rules.is_empty() {
+                let prev: &asp::Rule = &rules[self.rng.below(rules.len())];
+                let mut b2 = prev.body.formulas.clone();
+                b2.extend(body.clone());
+                rules.push(asp::Rule { head: prev.head.clone(), body: asp::Body { formulas: b2 } });
+            }
+            rules.push(asp::Rule { head, body: asp::Body { formulas: body } });
+        }
+        asp::Program { rules }
     }
 
     pub fn program(&mut self, max_rules: usize, depth: usize) -> asp::Program {
